@@ -1,1 +1,857 @@
-//! (reference model; owner fills this in)
+//! Lig/kern reference models (property C05). Nothing here calls into /repo.
+//!
+//! Three formulations of "what a raw lig/kern program does":
+//!
+//! * [`run_cursor`]  - the TFM definition read literally: a cursor over `|- w1 ... wn -|`; for the
+//!   pair at the cursor walk the SKIP/STOP chain of the left character (or of the left boundary),
+//!   apply the first matching KERN or LIG step; a LIG step with op code `4a+2b+c` inserts the
+//!   new character, deletes the left character unless b=1, deletes the right character unless
+//!   c=1, then passes over `a` characters. The right boundary is a one-shot pseudo element.
+//! * [`run_tex`]     - a transcription of TeX: The Program §1034-1040 (`main_loop` ...
+//!   `main_lig_loop`) with TeX's own bookkeeping: `lig_stack`, `cur_l`, `cur_r`, `cur_q`,
+//!   `ligature_present`, `lft_hit`, `rt_hit`, `bchar`. It yields TeX's *nodes*: which original
+//!   characters hang on which ligature node (`lig_ptr`) and the two boundary flags (subtype).
+//! * [`PairEval`]    - TFtoPL §88-95: the recursive function f(x,y) over the rule table with the
+//!   classes simple / left_z / right_z / both_z / pending; a pair never terminates iff its
+//!   evaluation reaches a pair that is still pending.
+//!
+//! Characters are bytes. Kern payloads are opaque i32 (the monitor stores the fix_word there and
+//! scales it with `fontarith::store_scaled`).
+
+use std::collections::{BTreeMap, HashMap};
+
+pub type Ch = u8;
+
+#[derive(Clone, Copy, Debug, PartialEq, Eq, Hash)]
+pub enum Op {
+    Kern(i32),
+    /// `code` = 4a+2b+c, one of 0 1 2 3 5 6 7 11.
+    Lig { code: u8, insert: Ch },
+}
+
+pub const LIG_CODES: [u8; 8] = [0, 1, 2, 3, 5, 6, 7, 11];
+
+/// PL names of the eight forms, for witnesses.
+pub fn lig_name(code: u8) -> &'static str {
+    match code {
+        0 => "LIG",
+        1 => "LIG/",
+        2 => "/LIG",
+        3 => "/LIG/",
+        5 => "LIG/>",
+        6 => "/LIG>",
+        7 => "/LIG/>",
+        11 => "/LIG/>>",
+        _ => "?",
+    }
+}
+
+#[derive(Clone, Debug, PartialEq, Eq, Hash)]
+pub struct Instr {
+    /// `Some(n)`: if this step does not apply continue with instruction i+n+1 (SKIP n; n=0 is
+    /// "the next one"). `None`: STOP (skip_byte >= 128).
+    pub skip: Option<u8>,
+    pub right: Ch,
+    pub op: Op,
+}
+
+#[derive(Clone, Debug, Default, PartialEq, Eq, Hash)]
+pub struct Prog {
+    pub instrs: Vec<Instr>,
+    /// lig_kern_start of each character that has a program
+    pub entry: BTreeMap<Ch, usize>,
+    /// bchar_label
+    pub left_entry: Option<usize>,
+    /// the font's boundary character
+    pub right_boundary: Option<Ch>,
+}
+
+/// Left element of a pair: a character or the left boundary.
+pub type Left = Option<Ch>;
+
+impl Prog {
+    /// All skips stay inside the program and the walk from every entry point ends in a STOP:
+    /// what TeX §573 demands before it accepts the font.
+    pub fn well_formed(&self) -> bool {
+        let n = self.instrs.len();
+        for (i, ins) in self.instrs.iter().enumerate() {
+            if let Some(s) = ins.skip {
+                if i + s as usize + 1 >= n {
+                    return false;
+                }
+            }
+            if let Op::Lig { code, .. } = ins.op {
+                if !LIG_CODES.contains(&code) {
+                    return false;
+                }
+            }
+        }
+        self.entry.values().all(|&e| e < n) && self.left_entry.map_or(true, |e| e < n)
+    }
+
+    fn start(&self, left: Left) -> Option<usize> {
+        match left {
+            Some(c) => self.entry.get(&c).copied(),
+            None => self.left_entry,
+        }
+    }
+
+    /// TeX §1039: walk the chain of `left`, first instruction whose next_char is `right` wins.
+    pub fn rule(&self, left: Left, right: Ch) -> Option<Op> {
+        let mut k = self.start(left)?;
+        loop {
+            let ins = self.instrs.get(k)?;
+            if ins.right == right {
+                return Some(ins.op);
+            }
+            match ins.skip {
+                Some(s) => k = k + s as usize + 1,
+                None => return None,
+            }
+        }
+    }
+
+    /// Every (left, right) pair that has a rule, in (left, instruction) order; the left boundary
+    /// comes last. Only the first instruction for a pair counts.
+    pub fn rule_pairs(&self) -> Vec<(Left, Ch, Op)> {
+        let mut out: Vec<(Left, Ch, Op)> = vec![];
+        let mut lefts: Vec<Left> = self.entry.keys().map(|c| Some(*c)).collect();
+        if self.left_entry.is_some() {
+            lefts.push(None);
+        }
+        for left in lefts {
+            let mut seen = [false; 256];
+            let Some(mut k) = self.start(left) else {
+                continue;
+            };
+            while let Some(ins) = self.instrs.get(k) {
+                if !seen[ins.right as usize] {
+                    seen[ins.right as usize] = true;
+                    out.push((left, ins.right, ins.op));
+                }
+                match ins.skip {
+                    Some(s) => k = k + s as usize + 1,
+                    None => break,
+                }
+            }
+        }
+        out
+    }
+
+    /// Rule table for repeated lookups.
+    pub fn table(&self) -> RuleTable {
+        let mut m = HashMap::new();
+        for (l, r, op) in self.rule_pairs() {
+            m.insert((l, r), op);
+        }
+        RuleTable { m }
+    }
+}
+
+#[derive(Clone, Debug)]
+pub struct RuleTable {
+    m: HashMap<(Left, Ch), Op>,
+}
+
+impl RuleTable {
+    #[inline]
+    pub fn get(&self, left: Left, right: Ch) -> Option<Op> {
+        self.m.get(&(left, right)).copied()
+    }
+    pub fn len(&self) -> usize {
+        self.m.len()
+    }
+    pub fn is_empty(&self) -> bool {
+        self.m.is_empty()
+    }
+}
+
+/// What the statement compares: plain characters, ligature glyphs and kerns, in order.
+#[derive(Clone, Copy, Debug, PartialEq, Eq, Hash)]
+pub enum Item {
+    Char(Ch),
+    Lig(Ch),
+    Kern(i32),
+}
+
+/// The run used more ligature steps than the bound: treated as "does not terminate".
+#[derive(Clone, Copy, Debug, PartialEq, Eq)]
+pub struct Diverged;
+
+#[derive(Clone, Copy, Debug, Default)]
+pub struct RunStats {
+    pub lig_steps: u64,
+    pub kern_steps: u64,
+    /// a LIG step was applied with the left boundary as left element
+    pub left_boundary_steps: u64,
+    /// a LIG or KERN step was applied with the right boundary as right element
+    pub right_boundary_steps: u64,
+    /// the right boundary was deleted by a step
+    pub right_boundary_consumed: bool,
+    /// the same (left,right) pair had a LIG step applied more than once during this run
+    pub pair_revisited: bool,
+}
+
+#[derive(Clone, Copy, Debug)]
+struct El {
+    c: Ch,
+    inserted: bool,
+}
+
+/// Formulation (a1): the cursor interpreter. `left_boundary`: start with the cursor on the left
+/// boundary (TeX without `\noboundary`); `bchar`: the right boundary character in force.
+pub fn run_cursor(
+    rules: &RuleTable,
+    word: &[Ch],
+    left_boundary: bool,
+    bchar: Option<Ch>,
+    max_lig_steps: u64,
+    stats: &mut RunStats,
+) -> Result<Vec<Item>, Diverged> {
+    let mut out: Vec<Item> = vec![];
+    if word.is_empty() {
+        return Ok(out);
+    }
+    // everything to the right of the cursor, nearest element last
+    let mut rest: Vec<El> = word
+        .iter()
+        .rev()
+        .map(|&c| El { c, inserted: false })
+        .collect();
+    let mut bchar = bchar;
+    // the element under the cursor; None = the left boundary
+    let mut cur: Option<El> = if left_boundary { None } else { rest.pop() };
+    let mut visited: Vec<(Left, Ch)> = vec![];
+
+    fn emit(out: &mut Vec<Item>, e: Option<El>) {
+        if let Some(e) = e {
+            out.push(if e.inserted { Item::Lig(e.c) } else { Item::Char(e.c) });
+        }
+    }
+
+    loop {
+        let right: Option<(Ch, bool)> = match rest.last() {
+            Some(e) => Some((e.c, false)),
+            None => bchar.map(|c| (c, true)),
+        };
+        let Some((r, r_is_boundary)) = right else {
+            emit(&mut out, cur);
+            return Ok(out);
+        };
+        let left: Left = cur.map(|e| e.c);
+        let op = rules.get(left, r);
+        // number of elements the cursor passes over after this step
+        let passes: u8 = match op {
+            None => 1,
+            Some(Op::Kern(_)) => 1,
+            Some(Op::Lig { code, insert }) => {
+                stats.lig_steps += 1;
+                if stats.lig_steps > max_lig_steps {
+                    return Err(Diverged);
+                }
+                if cur.is_none() {
+                    stats.left_boundary_steps += 1;
+                }
+                if r_is_boundary {
+                    stats.right_boundary_steps += 1;
+                }
+                if visited.contains(&(left, r)) {
+                    stats.pair_revisited = true;
+                } else {
+                    visited.push((left, r));
+                }
+                let keep_left = code & 2 != 0;
+                let keep_right = code & 1 != 0;
+                if !keep_right {
+                    if r_is_boundary {
+                        bchar = None;
+                        stats.right_boundary_consumed = true;
+                    } else {
+                        rest.pop();
+                    }
+                }
+                let z = El {
+                    c: insert,
+                    inserted: true,
+                };
+                if keep_left {
+                    rest.push(z);
+                } else {
+                    cur = Some(z);
+                }
+                code >> 2
+            }
+        };
+        if let Some(Op::Kern(k)) = op {
+            stats.kern_steps += 1;
+            if r_is_boundary {
+                stats.right_boundary_steps += 1;
+            }
+            emit(&mut out, cur);
+            out.push(Item::Kern(k));
+            match rest.pop() {
+                Some(e) => cur = Some(e),
+                None => return Ok(out), // the cursor moved onto the right boundary
+            }
+            continue;
+        }
+        for _ in 0..passes {
+            emit(&mut out, cur);
+            match rest.pop() {
+                Some(e) => cur = Some(e),
+                None => return Ok(out), // onto the right boundary, or off the end
+            }
+        }
+    }
+}
+
+// ------------------------------------------------------------------------------------------
+// TeX §1034-1040
+
+/// TeX's nodes.
+#[derive(Clone, Debug, PartialEq, Eq, Hash)]
+pub enum Node {
+    Char(Ch),
+    /// ligature node: character, the characters on `lig_ptr`, subtype >= 2, subtype odd
+    Lig {
+        c: Ch,
+        original: Vec<Ch>,
+        left_boundary: bool,
+        right_boundary: bool,
+    },
+    Kern(i32),
+}
+
+impl Node {
+    pub fn item(&self) -> Item {
+        match self {
+            Node::Char(c) => Item::Char(*c),
+            Node::Lig { c, .. } => Item::Lig(*c),
+            Node::Kern(k) => Item::Kern(*k),
+        }
+    }
+}
+
+#[derive(Clone, Copy, Debug)]
+enum StackItem {
+    /// a character node fetched from the input (always at the bottom: link = null)
+    CharNode(Ch),
+    /// `new_lig_item(c)` with `lig_ptr` null or one character node
+    LigItem { c: Ch, ptr: Option<Ch> },
+}
+
+impl StackItem {
+    fn character(&self) -> Ch {
+        match self {
+            StackItem::CharNode(c) => *c,
+            StackItem::LigItem { c, .. } => *c,
+        }
+    }
+}
+
+#[derive(Clone, Copy, Debug, PartialEq, Eq)]
+enum Label {
+    MainLoopWrapup,
+    MainLoopMove,
+    MainLoopMove1,
+    MainLoopMove2,
+    MainLoopMoveLig,
+    MainLoopLookahead,
+    MainLigLoop,
+    MainLigLoop1,
+    Reswitch,
+}
+
+struct Tex<'a> {
+    prog: &'a Prog,
+    input: &'a [Ch],
+    pos: usize,
+    tail: Vec<Node>,
+    cur_q: usize,
+    lig_stack: Vec<StackItem>,
+    cur_l: Option<Ch>,
+    cur_r: Option<Ch>,
+    bchar: Option<Ch>,
+    ligature_present: bool,
+    lft_hit: bool,
+    rt_hit: bool,
+    main_k: usize,
+}
+
+impl<'a> Tex<'a> {
+    /// §1035 pack_lig(#)
+    fn pack_lig(&mut self, z: bool) {
+        let c = self.cur_l.expect("pack_lig with cur_l = non_char");
+        let mut original = vec![];
+        for n in self.tail.drain(self.cur_q..) {
+            match n {
+                Node::Char(c) => original.push(c),
+                other => panic!("model: non-character node {other:?} inside a ligature's original list"),
+            }
+        }
+        let mut left_boundary = false;
+        let mut right_boundary = false;
+        if self.lft_hit {
+            left_boundary = true;
+            self.lft_hit = false;
+        }
+        if z && self.lig_stack.is_empty() {
+            right_boundary = true;
+            self.rt_hit = false;
+        }
+        self.tail.push(Node::Lig {
+            c,
+            original,
+            left_boundary,
+            right_boundary,
+        });
+        self.ligature_present = false;
+    }
+
+    /// §1035 wrapup(#) (the discretionary after a hyphen char is not modelled)
+    fn wrapup(&mut self, z: bool) {
+        if self.cur_l.is_some() && self.ligature_present {
+            self.pack_lig(z);
+        }
+    }
+}
+
+/// Formulation (a2): TeX's main loop. `cancel_boundary` = `\noboundary` precedes the word.
+pub fn run_tex(
+    prog: &Prog,
+    word: &[Ch],
+    cancel_boundary: bool,
+    bchar: Option<Ch>,
+    max_lig_steps: u64,
+) -> Result<Vec<Node>, Diverged> {
+    if word.is_empty() {
+        return Ok(vec![]);
+    }
+    let mut t = Tex {
+        prog,
+        input: word,
+        pos: 1,
+        tail: vec![],
+        cur_q: 0,
+        lig_stack: vec![StackItem::CharNode(word[0])],
+        cur_l: Some(word[0]),
+        cur_r: None,
+        bchar,
+        ligature_present: false,
+        lft_hit: false,
+        rt_hit: false,
+        main_k: 0,
+    };
+    let mut steps = 0u64;
+    // §1034
+    let mut label = match (cancel_boundary, prog.left_entry) {
+        (false, Some(k)) => {
+            t.main_k = k;
+            t.cur_r = t.cur_l;
+            t.cur_l = None;
+            Label::MainLigLoop1
+        }
+        _ => Label::MainLoopMove2,
+    };
+    loop {
+        label = match label {
+            Label::Reswitch => return Ok(t.tail),
+            Label::MainLoopWrapup => {
+                let z = t.rt_hit;
+                t.wrapup(z);
+                Label::MainLoopMove
+            }
+            // §1036
+            Label::MainLoopMove => {
+                if t.lig_stack.is_empty() {
+                    Label::Reswitch
+                } else {
+                    t.cur_q = t.tail.len();
+                    t.cur_l = Some(t.lig_stack.last().unwrap().character());
+                    Label::MainLoopMove1
+                }
+            }
+            Label::MainLoopMove1 => match t.lig_stack.last() {
+                Some(StackItem::CharNode(_)) => Label::MainLoopMove2,
+                Some(StackItem::LigItem { .. }) => Label::MainLoopMoveLig,
+                None => panic!("model: main_loop_move+1 with empty lig_stack"),
+            },
+            Label::MainLoopMove2 => {
+                // link(tail):=lig_stack; tail:=lig_stack
+                match t.lig_stack.pop() {
+                    Some(StackItem::CharNode(c)) => t.tail.push(Node::Char(c)),
+                    other => panic!("model: main_loop_move+2 expects a character node, got {other:?}"),
+                }
+                assert!(t.lig_stack.is_empty(), "model: character node was not at the bottom");
+                Label::MainLoopLookahead
+            }
+            // §1037
+            Label::MainLoopMoveLig => {
+                let Some(StackItem::LigItem { ptr: main_p, .. }) = t.lig_stack.pop() else {
+                    panic!("model: main_loop_move_lig expects a lig item");
+                };
+                if let Some(c) = main_p {
+                    t.tail.push(Node::Char(c));
+                }
+                t.ligature_present = true;
+                match t.lig_stack.last() {
+                    None => {
+                        if main_p.is_some() {
+                            Label::MainLoopLookahead
+                        } else {
+                            t.cur_r = t.bchar;
+                            Label::MainLigLoop
+                        }
+                    }
+                    Some(top) => {
+                        t.cur_r = Some(top.character());
+                        Label::MainLigLoop
+                    }
+                }
+            }
+            // §1038
+            Label::MainLoopLookahead => {
+                if t.pos < t.input.len() {
+                    let c = t.input[t.pos];
+                    t.pos += 1;
+                    t.lig_stack = vec![StackItem::CharNode(c)];
+                    t.cur_r = Some(c);
+                } else {
+                    t.cur_r = t.bchar;
+                    t.lig_stack.clear();
+                }
+                Label::MainLigLoop
+            }
+            // §1039
+            Label::MainLigLoop => {
+                let cur_l = t.cur_l.expect("model: main_lig_loop with cur_l = non_char");
+                match (t.prog.entry.get(&cur_l), t.cur_r) {
+                    (None, _) => Label::MainLoopWrapup,
+                    (_, None) => Label::MainLoopWrapup,
+                    (Some(&k), Some(_)) => {
+                        t.main_k = k;
+                        Label::MainLigLoop1
+                    }
+                }
+            }
+            Label::MainLigLoop1 => {
+                let Some(ins) = t.prog.instrs.get(t.main_k) else {
+                    panic!("model: lig/kern walk left the program");
+                };
+                if Some(ins.right) == t.cur_r {
+                    // §1040
+                    match ins.op {
+                        Op::Kern(k) => {
+                            let z = t.rt_hit;
+                            t.wrapup(z);
+                            t.tail.push(Node::Kern(k));
+                            Label::MainLoopMove
+                        }
+                        Op::Lig { code, insert } => {
+                            if t.cur_l.is_none() {
+                                t.lft_hit = true;
+                            } else if t.lig_stack.is_empty() {
+                                t.rt_hit = true;
+                            }
+                            steps += 1;
+                            if steps > max_lig_steps {
+                                return Err(Diverged);
+                            }
+                            let mut early: Option<Label> = None;
+                            match code {
+                                1 | 5 => {
+                                    t.cur_l = Some(insert);
+                                    t.ligature_present = true;
+                                }
+                                2 | 6 => {
+                                    t.cur_r = Some(insert);
+                                    match t.lig_stack.last_mut() {
+                                        None => {
+                                            t.lig_stack.push(StackItem::LigItem {
+                                                c: insert,
+                                                ptr: None,
+                                            });
+                                            t.bchar = None;
+                                        }
+                                        Some(top) => match *top {
+                                            StackItem::CharNode(p) => {
+                                                *top = StackItem::LigItem {
+                                                    c: insert,
+                                                    ptr: Some(p),
+                                                };
+                                            }
+                                            StackItem::LigItem { ptr, .. } => {
+                                                *top = StackItem::LigItem { c: insert, ptr };
+                                            }
+                                        },
+                                    }
+                                }
+                                3 => {
+                                    t.cur_r = Some(insert);
+                                    t.lig_stack.push(StackItem::LigItem {
+                                        c: insert,
+                                        ptr: None,
+                                    });
+                                }
+                                7 | 11 => {
+                                    t.wrapup(false);
+                                    t.cur_q = t.tail.len();
+                                    t.cur_l = Some(insert);
+                                    t.ligature_present = true;
+                                }
+                                _ => {
+                                    // =:
+                                    t.cur_l = Some(insert);
+                                    t.ligature_present = true;
+                                    early = Some(if t.lig_stack.is_empty() {
+                                        Label::MainLoopWrapup
+                                    } else {
+                                        Label::MainLoopMove1
+                                    });
+                                }
+                            }
+                            if let Some(l) = early {
+                                l
+                            } else if code > 4 && code != 7 {
+                                Label::MainLoopWrapup
+                            } else if t.cur_l.is_some() {
+                                Label::MainLigLoop
+                            } else {
+                                t.main_k = t
+                                    .prog
+                                    .left_entry
+                                    .expect("model: cur_l = non_char without bchar_label");
+                                Label::MainLigLoop1
+                            }
+                        }
+                    }
+                } else {
+                    match ins.skip {
+                        Some(s) => {
+                            t.main_k = t.main_k + s as usize + 1;
+                            Label::MainLigLoop1
+                        }
+                        None => Label::MainLoopWrapup,
+                    }
+                }
+            }
+        };
+    }
+}
+
+// ------------------------------------------------------------------------------------------
+// TFtoPL §88-95
+
+#[derive(Clone, Copy, Debug, PartialEq, Eq)]
+enum Class {
+    Simple,
+    LeftZ,
+    RightZ,
+    BothZ,
+    Pending,
+    /// evaluation reached a pending pair: f is undefined
+    Diverges,
+}
+
+#[derive(Clone, Copy, Debug)]
+struct Entry {
+    class: Class,
+    /// lig_z: the function value (simple) or the ligature character (left_z, right_z, both_z)
+    z: Ch,
+    /// number of LIG steps the evaluation takes (saturating)
+    steps: u64,
+    /// number of items (glyphs + kerns) emitted before the cursor rests on f(x,y) (saturating)
+    emitted: u64,
+}
+
+/// Result of evaluating a pair.
+#[derive(Clone, Copy, Debug, PartialEq, Eq)]
+pub enum PairResult {
+    /// terminates; `f` = the character under the cursor afterwards, with cost figures
+    Value { f: Ch, lig_steps: u64, emitted: u64 },
+    Diverges,
+}
+
+/// The recursive evaluation of TFtoPL §94-95 over the rule table of §89-93.
+pub struct PairEval {
+    hash: HashMap<(Left, Ch), Entry>,
+    pending: Vec<(Left, Ch)>,
+    on_cycle: Vec<(Left, Ch)>,
+}
+
+impl PairEval {
+    /// §91-93: enter the first command for each (c, y); compute class and lig_z.
+    pub fn new(prog: &Prog) -> PairEval {
+        let mut hash = HashMap::new();
+        for (left, y, op) in prog.rule_pairs() {
+            let (class, z, emitted) = match op {
+                // kern: f = y; emits left (unless boundary) and the kern
+                Op::Kern(_) => (Class::Simple, y, left.is_some() as u64 + 1),
+                Op::Lig { code, insert } => match code {
+                    0 => (Class::Simple, insert, 0),
+                    6 => (Class::Simple, insert, left.is_some() as u64),
+                    5 => (Class::Simple, y, 1),
+                    11 => (Class::Simple, y, left.is_some() as u64 + 1),
+                    1 => (Class::LeftZ, insert, 0),
+                    7 => (Class::LeftZ, insert, left.is_some() as u64),
+                    2 => (Class::RightZ, insert, 0),
+                    3 => (Class::BothZ, insert, 0),
+                    _ => (Class::Simple, y, 0),
+                },
+            };
+            let steps = matches!(op, Op::Lig { .. }) as u64;
+            hash.insert(
+                (left, y),
+                Entry {
+                    class,
+                    z,
+                    steps,
+                    emitted,
+                },
+            );
+        }
+        PairEval {
+            hash,
+            pending: vec![],
+            on_cycle: vec![],
+        }
+    }
+
+    /// §94 eval(x,y): `Ok((f, steps, emitted))`, or `Err(())` if the evaluation depends on a
+    /// pending pair. A pair without a rule: f = y, the cursor simply passes over x.
+    fn eval(&mut self, x: Left, y: Ch) -> Result<(Ch, u64, u64), ()> {
+        let Some(e) = self.hash.get(&(x, y)).copied() else {
+            return Ok((y, 0, x.is_some() as u64));
+        };
+        match e.class {
+            Class::Simple => Ok((e.z, e.steps, e.emitted)),
+            Class::Diverges => Err(()),
+            Class::Pending => {
+                // §95 "pending": the pair depends on itself
+                let pos = self
+                    .pending
+                    .iter()
+                    .position(|p| *p == (x, y))
+                    .expect("pending pair is on the stack");
+                for p in self.pending[pos..].to_vec() {
+                    if !self.on_cycle.contains(&p) {
+                        self.on_cycle.push(p);
+                    }
+                }
+                Err(())
+            }
+            Class::LeftZ | Class::RightZ | Class::BothZ => {
+                self.hash.get_mut(&(x, y)).unwrap().class = Class::Pending;
+                self.pending.push((x, y));
+                let r = match e.class {
+                    // f(x,y) = f(z,y)
+                    Class::LeftZ => self.eval(Some(e.z), y),
+                    // f(x,y) = f(x,z)
+                    Class::RightZ => self.eval(x, e.z),
+                    // f(x,y) = f(f(x,z),y)
+                    _ => match self.eval(x, e.z) {
+                        Ok((w, s1, m1)) => self
+                            .eval(Some(w), y)
+                            .map(|(f, s2, m2)| (f, s1.saturating_add(s2), m1.saturating_add(m2))),
+                        Err(()) => Err(()),
+                    },
+                };
+                self.pending.pop();
+                let slot = self.hash.get_mut(&(x, y)).unwrap();
+                match r {
+                    Ok((f, s, m)) => {
+                        slot.class = Class::Simple;
+                        slot.z = f;
+                        slot.steps = e.steps.saturating_add(s);
+                        slot.emitted = e.emitted.saturating_add(m);
+                        Ok((f, slot.steps, slot.emitted))
+                    }
+                    Err(()) => {
+                        slot.class = Class::Diverges;
+                        Err(())
+                    }
+                }
+            }
+        }
+    }
+
+    pub fn pair(&mut self, x: Left, y: Ch) -> PairResult {
+        match self.eval(x, y) {
+            Ok((f, lig_steps, emitted)) => PairResult::Value {
+                f,
+                lig_steps,
+                emitted,
+            },
+            Err(()) => PairResult::Diverges,
+        }
+    }
+
+    /// Pairs found to depend on themselves (members of a dependency cycle) so far.
+    pub fn on_cycle(&self) -> &[(Left, Ch)] {
+        &self.on_cycle
+    }
+}
+
+#[cfg(test)]
+mod tests {
+    use super::*;
+
+    fn prog(rules: &[(Option<u8>, &[(u8, Op)])], rb: Option<u8>) -> Prog {
+        let mut p = Prog::default();
+        p.right_boundary = rb;
+        for (left, rs) in rules {
+            let start = p.instrs.len();
+            for (i, (r, op)) in rs.iter().enumerate() {
+                p.instrs.push(Instr {
+                    skip: if i + 1 == rs.len() { None } else { Some(0) },
+                    right: *r,
+                    op: *op,
+                });
+            }
+            match left {
+                Some(c) => {
+                    p.entry.insert(*c, start);
+                }
+                None => p.left_entry = Some(start),
+            }
+        }
+        p
+    }
+
+    #[test]
+    fn simple_lig_and_loop() {
+        let p = prog(
+            &[(Some(b'A'), &[(b'B', Op::Lig { code: 0, insert: b'1' })])],
+            None,
+        );
+        let mut st = RunStats::default();
+        let r = run_cursor(&p.table(), b"AB", false, None, 100, &mut st).unwrap();
+        assert_eq!(r, vec![Item::Lig(b'1')]);
+        let n = run_tex(&p, b"AB", true, None, 100).unwrap();
+        assert_eq!(
+            n,
+            vec![Node::Lig {
+                c: b'1',
+                original: vec![b'A', b'B'],
+                left_boundary: false,
+                right_boundary: false
+            }]
+        );
+        // (A,B) -> (A,C) -> (A,B): the loop of corpus/originals/ligature-loop
+        let p = prog(
+            &[(
+                Some(b'A'),
+                &[
+                    (b'B', Op::Lig { code: 2, insert: b'C' }),
+                    (b'C', Op::Lig { code: 2, insert: b'B' }),
+                ],
+            )],
+            None,
+        );
+        let mut st = RunStats::default();
+        assert!(run_cursor(&p.table(), b"AB", false, None, 1000, &mut st).is_err());
+        assert!(run_tex(&p, b"AB", true, None, 1000).is_err());
+        let mut pe = PairEval::new(&p);
+        assert_eq!(pe.pair(Some(b'A'), b'B'), PairResult::Diverges);
+    }
+}
